@@ -1,7 +1,8 @@
 #!/usr/bin/env python3
 """append an entry to known_findings.json: tools/kf.py <prop> <status open|fixed> <key> <commit|-> <what...>"""
 import json, sys
-p = "/verif/known_findings.json"
+import os
+p = os.path.join(os.path.dirname(os.path.dirname(os.path.abspath(__file__))), "known_findings.json")
 d = json.load(open(p))
 prop, status, key, commit = sys.argv[1:5]
 what = " ".join(sys.argv[5:])
